@@ -54,11 +54,14 @@ class Disc(object):
 
 
 class CaseResult(object):
-    __slots__ = ("discs", "tags", "nontrivial", "note", "evals")
+    __slots__ = ("discs", "tags", "nontrivial", "note", "evals", "subcases")
 
-    def __init__(self, discs, tags, nontrivial, note="", evals=1):
+    def __init__(self, discs, tags, nontrivial, note="", evals=1, subcases=None):
         self.discs, self.tags = list(discs), frozenset(tags)
         self.nontrivial, self.note, self.evals = bool(nontrivial), note, evals
+        # a case that bundles many independent inputs (a batch) lists them: [(hash, non-trivial?)]; they are what is
+        # counted as distinct / non-trivial instead of the bundle
+        self.subcases = subcases
 
 
 def canon(case):
@@ -160,10 +163,16 @@ class Collector(object):
         if h in self.seen:
             return
         self.seen.add(h)
+        if res.subcases:
+            for sh, nt in res.subcases:
+                self.seen.add(sh)
+                if nt:
+                    self.nontrivial.add(sh)
         for t in res.tags:
             self.tag_hist[t] += 1
         if res.nontrivial:
-            self.nontrivial.add(h)
+            if not res.subcases:
+                self.nontrivial.add(h)
             if len(self.samples) < 6 and (len(self.samples) < 3 or res.discs):
                 self.samples.append({"case": case, "mode": mode, "outcome": res.note or ("%d discrepancies" % len(res.discs))})
         hit = set()
@@ -471,7 +480,19 @@ def main_check(modname, tier, replay=None, survey=False):
     for key, b_ in coll.buckets.items():
         case = b_["case"]
         if not survey:
-            case = minimise(mod, case, key, findings, max_evals=120 if tier == "quick" else 600)
+            focus = getattr(mod, "focus", None)
+            if focus is not None:
+                # property-specific shortcut: e.g. keep only the offending item of a batch
+                try:
+                    cand = focus(case, b_["disc"])
+                    if cand is not None and mod.valid(cand):
+                        res_c = mod.run_case(cand)
+                        if any(bucket_key(d) == key and attribute(d, res_c.tags, findings) is None for d in res_c.discs):
+                            case = cand
+                except env.HarnessError:
+                    pass
+            case = minimise(mod, case, key, findings,
+                            max_evals=getattr(mod, "MINIMISE_EVALS", {}).get(tier, 120 if tier == "quick" else 600))
         hh = hashlib.sha1((mod.PID + key).encode()).hexdigest()[:10]
         path = os.path.join(found_dir(mod.PID), "%s.json" % hh)
         try:
